@@ -69,7 +69,18 @@ Addrs(v, lay) == AddrAcc(v, lay, 1, Base(lay), [count |-> 0, info |-> 0, body |-
                     classifies them through Rd32 (which yields Huge from 2^31 on);
    "wrapsum"        size word = 2^32 - (absolute start address): start + size is 0 modulo 2^32 although the
                     range leaves the data region by almost 4 GiB. *)
+(* "nameptr"        [.., target |-> "zero" | "base" | "ds4" | "ds1" | "ds", listed |-> BOOLEAN]: the name cell of record j
+                    holds an ADDRESS of the data region (its start, the record itself, 4 / 1 bytes before the end,
+                    the end) instead of a string reference, either as a pointer cell listed in the pointer table
+                    or as plain bytes.  A pointer into the data region, end included, is not a string:
+                    the record has no name. *)
 NoErr == [kind |-> "none", j |-> 0]
+NamePtrTarget(lay, ad, err) ==
+  CASE err.target = "zero" -> 0
+    [] err.target = "base" -> ad.info + RecSize * (err.j - 1)
+    [] err.target = "ds4"  -> ad.end - 4
+    [] err.target = "ds1"  -> ad.end - 1
+    [] OTHER               -> ad.end
 \* the 32-bit two's complement of d (1 <= d <= 65535), most significant byte first
 NegWord(d) == <<255, 255, (65536 - d) \div 256, (65536 - d) % 256>>
 RecBytes(v, lay, ad, err, j) ==
@@ -85,7 +96,8 @@ RecBytes(v, lay, ad, err, j) ==
                ELSE IF err.kind = "wrapsum" /\ hit THEN Word32(NegWord(IF ad.body[f] = 0 THEN 1 ELSE ad.body[f]), "le")
                ELSE U32(size, "le")
       offW == IF err.kind = "words" /\ hit /\ err.ow # <<>> THEN Word32(err.ow, "le") ELSE U32(off, "le")
-  IN Zeros(4) \o U32(f - 1, "le") \o sizeW \o offW
+      nameW == IF err.kind = "nameptr" /\ hit /\ ~err.listed THEN U32(NamePtrTarget(lay, ad, err), "le") ELSE Zeros(4)
+  IN nameW \o U32(f - 1, "le") \o sizeW \o offW
 
 \* pass 2: bytes
 RECURSIVE DataAcc(_, _, _, _, _, _)
@@ -112,11 +124,12 @@ ArcContent(v, lay, err) ==
                \o (IF err.kind = "nocount" THEN <<>> ELSE << <<ad.count, CountName>> >>)
                \o (IF err.kind = "noinfo" THEN <<>> ELSE << <<ad.info, InfoName>> >>)
                \o (IF lay.extra THEN [j \in 1..n |-> <<ad.info + RecSize * (j - 1), NameOf(v[lay.recs[j]])>>] ELSE <<>>)
-      named == SelectSeq([j \in 1..n |-> j], LAMBDA j : ~(err.kind = "noname" /\ err.j = j))
+      named == SelectSeq([j \in 1..n |-> j], LAMBDA j : ~(err.kind \in {"noname", "nameptr"} /\ err.j = j))
   IN [endian |-> "le",
       data   |-> DataAcc(v, lay, ad, err, 1, Zeros(Base(lay))),
       text   |-> [m \in 1..Len(named) |-> <<ad.info + RecSize * (named[m] - 1), NameOf(v[lay.recs[named[m]]])>>],
-      ptrs   |-> <<>>,
+      ptrs   |-> IF err.kind = "nameptr" /\ err.listed
+                 THEN << <<ad.info + RecSize * (err.j - 1), NamePtrTarget(lay, ad, err)>> >> ELSE <<>>,
       labels |-> GroupLabels(pairs),
       cstr   |-> <<>>]
 
@@ -199,6 +212,14 @@ BigBody(i) == IF i % 251 = 0 THEN <<i % 256, (i \div 256) % 256>> ELSE <<>>
 RequiredSample(n) ==
   { i \in {0, n - 1, 254, 255, 256, 257, 65534, 65535, 65536} : i >= 0 /\ i < n }
   \cup { 4099 * k : k \in 0..((n - 1) \div 4099) }
+\* the image really announces n string cells and the labels the builder put (Count, Info and, with the extra
+\* labels, Data and one per record): desc = [n, image_bytes, strings, labels, head]
+BigImageOK(desc) ==
+  /\ desc.n \in 0..1048576 /\ desc.strings = desc.n /\ desc.labels \in {2, desc.n + 3}
+  /\ Len(desc.head) = 32
+  /\ Rd32(desc.head, 0, "le") = desc.image_bytes
+  /\ Rd32(desc.head, 8, "le") = desc.strings
+  /\ Rd32(desc.head, 12, "le") = desc.labels
 BigAllowed(n, result) ==
   /\ "ok" \in DOMAIN result /\ result.ok
   /\ result.count = n
